@@ -71,6 +71,11 @@ func (s *Server) Shutdown(ctx context.Context) error {
 
 func (s *Server) proxyRoute(c *gin.Context) {
 	s.proxy.ServeHTTP(c.Writer, c.Request)
+
+	// As this is the 'no route' handler, unless the response header has been
+	// written gin considers the request unhandled, so replaces an upstream
+	// 404 response that has no body with its own content type and body.
+	c.Writer.WriteHeaderNow()
 }
 
 func (s *Server) panicRoute(c *gin.Context, err any) {
